@@ -145,6 +145,10 @@ def check_join(chk, prop, stratum, how, L, R, lnames, rnames, key_mode="name", e
 	lon, ron = list(lnames), list(rnames)
 	if key_mode == "vector":
 		lon, ron = [L.cols()[ln.index(k)] for k in lon], [R.cols()[rn.index(k)] for k in ron]
+	elif key_mode == "crossed":
+		# names and vectors alternate, the other way round on the other side: the i-th left key still meets the i-th right key
+		lon = [k if i % 2 == 0 else L.cols()[ln.index(k)] for i, k in enumerate(lon)]
+		ron = [R.cols()[rn.index(k)] if i % 2 == 0 else k for i, k in enumerate(ron)]
 	elif key_mode == "named-derived":
 		lon = [Vector(list(c), name=k) for c, k in zip(lkeycols, lnames)]
 		ron = [Vector(list(c), name=k) for c, k in zip(rkeycols, rnames)]
